@@ -1,6 +1,8 @@
 """C08  Smoothed estimates reproduce the data and are a simulation of the model."""
 from __future__ import annotations
 
+import os
+
 from vf import core
 from vf.core import CorrResult, Failure
 from . import kalman_common as kc
@@ -48,7 +50,8 @@ MANIFEST = {
 
 
 def correspondence(ctx) -> CorrResult:
-    return kc.correspondence(ctx, n_cases=ctx.scale(60, 1500), n_exact=ctx.scale(2, 10),
+    n = int(os.environ.get("VERIF_KF_CASES", ctx.scale(60, 1500)))      # development knob
+    return kc.correspondence(ctx, n_cases=n, n_exact=ctx.scale(2, 10) if n >= 60 else 0,
                              max_periods=ctx.scale(8, 24), pid=ID)
 
 
@@ -71,7 +74,7 @@ def falsify(ctx, hints):
                 run(case)
             except Exception as e:  # noqa
                 ctx.log("falsifier on a disagreement raised", repr(e)[:200])
-    n = ctx.scale(60, 1500)
+    n = int(os.environ.get("VERIF_KF_CASES", ctx.scale(60, 1500)))
     for _ in range(n):
         case = kc.gen_case(ctx.rng, max_periods=ctx.scale(8, 24))
         info["cases"] += 1
